@@ -451,9 +451,11 @@ def main(prop, argv):
             else:
                 sys.stdout.write(tb)
                 raise InfraError("harness crashed: %r" % (e,))
-        if run.model:
-            run.model.close()
-        return finish(run)
+        try:
+            return finish(run)       # (the search after a broken tie may still ask the model)
+        finally:
+            if run.model:
+                run.model.close()
     except InfraError as e:
         print("INFRASTRUCTURE ERROR: %s" % e)
         return 2
